@@ -82,7 +82,9 @@ REG.spec('agent/scheduler/continuous.py:Continuous._find_resources',
                     loop_core_idx=T.Int, loop_gpu_idx=T.Int, lfs_avail=T.Int,
                     mem_avail=T.Int, gpu_share=T.Real, tmp=T.Int,
                     node_idx=T.Int, node_name=T.Str),
-    requires = ['n_slots >= 0', 'cores_per_slot >= 1', 'len(node.cores) >= 1',
+    # n_slots >= 1: with n_slots == 0 the search loop is not entered and the
+    # debug message after it reads node_name before assignment
+    requires = ['n_slots >= 1', 'cores_per_slot >= 1', 'len(node.cores) >= 1',
                 'gpus_per_slot >= 0', 'implies(gpus_per_slot >= 1, len(node.gpus) >= 1)',
                 'lfs_per_slot >= 0', 'mem_per_slot >= 0', 'node_ok(node)'],
     raises   = {'ValueError': 'gpus_per_slot >= 1 and int(gpus_per_slot) != gpus_per_slot'},
@@ -95,6 +97,7 @@ REG.spec('agent/scheduler/continuous.py:Continuous._find_resources',
         'gpus_per_slot == old(gpus_per_slot)',
         'implies(gpus_per_slot >= 1 and len(slots) > 0, int(gpus_per_slot) == gpus_per_slot)',
         'implies(len(slots) > 0, bound("core_idx") and core_idx + 1 == loop_core_idx)',
+        'implies(len(slots) > 0, bound("node_name"))',
         'implies(len(slots) == 0, loop_core_idx == 0 and loop_gpu_idx == 0)',
         'implies(len(slots) > 0 and gpus_per_slot >= 1, bound("gpu_idx") and gpu_idx + 1 == loop_gpu_idx)',
         ] + _slots_inv + [
@@ -170,7 +173,7 @@ REG.spec('utils/misc.py:convert_slots_to_new',
     ensures  = [('same-length', 'len(result) == len(slots)'),
                 ('placement-preserved',
                  'forall(lambda k: implies(0 <= k < len(slots), same_placement(result[k], slots[k])))')],
-    loops    = {'1': ['len(new_slots) == i_slot',
+    loops    = {'1': ['len(new_slots) == i_slot', 'slots == old(slots)',
                       'forall(lambda k: implies(0 <= k < len(new_slots), same_placement(new_slots[k], slots[k])))']},
     serves   = ['C01', 'C03', 'C19'])
 
@@ -406,8 +409,8 @@ REG.spec('agent/scheduler/continuous.py:Continuous.schedule_task',
        'val(result[0])[k].node_index in at(old(self._colo_history), val(task.description.tags.colocate)))))'),
     ],
     loops = {
-      '1': ['len(alc_slots) + rem_slots == req_slots', 'rem_slots >= 0', 'req_slots == td.ranks',
-            'slots_per_node >= 0',
+      '1': ['len(alc_slots) + rem_slots == req_slots', 'rem_slots >= 1', 'req_slots == td.ranks',
+            'slots_per_node >= 1',
             'cores_per_slot == eff_cps(td)', 'cores_per_slot >= 1',
             'forall(lambda k: implies(0 <= k < len(alc_slots), rank_placed(alc_slots[k], self.nodes, cores_per_slot, gpus_per_slot, lfs_per_slot, mem_per_slot)))',
             # slots collected so far lie on nodes already visited
